@@ -2,7 +2,7 @@
    Selectors < 100 run the model on the decoded input; selectors >= 100
    evaluate a law on the implementation's own results. *)
 From Coq Require Import ZArith List Bool.
-From V Require Import Base.Codec C11.Model C11.Spec C11.HeapModel C11.Laws.
+From V Require Import Base.Codec C11.Model C11.Spec C11.HeapModel C11.Laws C11.QueueModel.
 Import ListNotations.
 Open Scope Z_scope.
 
@@ -139,6 +139,43 @@ Definition vq_less_b (i : vq_input) (l r : vtask) : bool :=
   match vq_less i l r with Some b => b | None => false end.
 Definition vt_uid (t : vtask) : Z := i_uid (vt_item t).
 
+(* --- queues with the keys of the shipped queue comparators (selector 6) --- *)
+Definition dQNode : dec qnode := let* sh := dZ in let* f := dBool in ret (mkQNode sh f).
+Fixpoint rnumber (k : Z) (l : list (Z * Z * Z * bool * list Z * list qnode)) : list rqueue :=
+  match l with
+  | [] => []
+  | (c, u, pr, lf, anc, ns) :: r => mkRQueue (mkItem k c u None) pr lf anc ns :: rnumber (k + 1) r
+  end.
+Definition dRQueues : dec (list rqueue) :=
+  let* l := dList (let* c := dZ in let* u := dZ in let* pr := dZ in let* lf := dBool in
+                   let* anc := dList dZ in let* ns := dList dQNode in ret (c, u, pr, lf, anc, ns)) in
+  ret (rnumber 0 l).
+Record rq_input := mkRQI {
+  ri_pk : Z;                   (* 5 proportion, 6 capacity flat, 7 capacity hierarchical, 8 drf hdrf *)
+  ri_en : bool;                (* EnabledQueueOrder of the plugin *)
+  ri_pre : rqueue;             (* the preemptor queue of VictimQueueOrderFn *)
+  ri_qs : list rqueue
+}.
+(* the trailing list is how the harness realises the keys; the model ignores it *)
+Definition dRQI : dec rq_input :=
+  let* pk := dZ in let* en := dZ in let* pre := dNat in let* qs := dRQueues in
+  let* realisation := dList dZ in
+  match nth_error qs pre with
+  | Some p => ret (mkRQI pk (en =? 2) p qs)
+  | None => fail
+  end.
+Definition ri_qts (i : rq_input) : layout (rqueue -> rqueue -> Z) :=
+  [[mkSlot (ri_en i) true (real_queue_cmp (ri_pk i))]].
+(* only the hierarchical capacity plugin registers a VictimQueueOrderFn *)
+Definition ri_vts (i : rq_input) : layout (rqueue -> rqueue -> Z) :=
+  if ri_pk i =? 7 then [[mkSlot true true (cmp_capacity_victim (ri_pre i))]] else [].
+Definition rq_id (q : rqueue) : Z := i_id (rq_item q).
+Definition rq_look (qs : list rqueue) (it : item) : rqueue :=
+  match find (fun q => rq_id q =? i_id it) qs with
+  | Some q => q
+  | None => mkRQueue it 0 true [] []
+  end.
+
 Definition obool (o : option bool) : list Z :=
   match o with Some b => eBool b | None => model_error end.
 
@@ -204,6 +241,17 @@ Definition entry (sel : Z) (toks : list Z) : list Z :=
                 the session order function, then popped until empty *)
              tag 2 ++ match heap_sort lt ks with
                       | Some out => eList eZ (map (fun k => i_id (fst k)) out)
+                      | None => model_error
+                      end
+         | None => bad_input end
+  (* 6: QueueOrderFn / VictimQueueOrderFn of the shipped proportion, capacity and drf plugins *)
+  | 6 => match run_dec dRQI toks with
+         | Some i =>
+             let lt := order_fn (ri_qts i) rq_tb in
+             tag 1 ++ eMatB (ri_qs i) lt ++
+             tag 2 ++ eMatB (ri_qs i) (victim_order_gen (ri_vts i) (ri_qts i) rq_tb) ++
+             tag 3 ++ match heap_sort lt (ri_qs i) with
+                      | Some out => eList eZ (map rq_id out)
                       | None => model_error
                       end
          | None => bad_input end
@@ -277,6 +325,30 @@ Definition entry (sel : Z) (toks : list Z) : list Z :=
                       same_multiset out (map i_id its) &&
                       implb guard (law_sorted m outs && law_sorted key_lt outs))
            | None => bad_input end
+  (* 116: the implementation's matrices agree with the key order (first
+     distinguishing comparator, then creation time / UID), the victim order is the
+     victim comparator else the reversed queue order, the pop order is a permutation.
+     117: strict weak order on ALL triples, total on distinct UIDs, pop order sorted *)
+  | 116 | 117 =>
+      match run_dec (let* i := dRQI in let* t1 := dZ in let* m := dMat (length (ri_qs i)) in
+                     let* t2 := dZ in let* vm := dMat (length (ri_qs i)) in
+                     let* t3 := dZ in let* out := dList dZ in ret (i, m, vm, out)) toks with
+      | Some (i, m, vm, out) =>
+          let qs := ri_qs i in
+          let its := map rq_item qs in
+          let c (a b : item) := if ri_en i then real_queue_cmp (ri_pk i) (rq_look qs a) (rq_look qs b) else 0 in
+          let key_lt (a b : item) := let j := c a b in if j =? 0 then by_time_uid a b else j <? 0 in
+          let vc (a b : item) := if ri_pk i =? 7
+                                 then cmp_capacity_victim (ri_pre i) (rq_look qs a) (rq_look qs b) else 0 in
+          let outs := flat_map (fun k => match find (fun it => i_id it =? k) its with
+                                         | Some it => [it] | None => [] end) out in
+          if sel =? 116
+          then eBool (all2 its (fun a b => Bool.eqb (m a b) (key_lt a b)) &&
+                      all2 its (fun a b => Bool.eqb (vm a b)
+                                             (let j := vc a b in if j =? 0 then negb (key_lt a b) else j <? 0)) &&
+                      same_multiset out (map i_id its))
+          else eBool (swo_b its m && total_b its m && law_sorted m outs)
+      | None => bad_input end
   | 107 => match run_dec (let* mode := dZ in let* before := dList dZ in let* o := dOp in
                           let* ret_ := dOpt dZ in let* after := dList dZ in
                           ret (mode, before, o, ret_, after)) toks with
